@@ -33,9 +33,15 @@ func (s *Syncer) parallelSync(ctx context.Context, cs consensus.State, headers [
 		err    error
 	}
 
-	// divide headers among requests, max 100 blocks per request
-	const blocksPerReq = 100
-	reqs := make([]Req, (len(headers)+blocksPerReq-1)/blocksPerReq)
+	// divide headers among requests, max 100 blocks per request; never ask
+	// for more than we would serve ourselves (WithMaxSendBlocks), since a
+	// peer configured alike answers a larger request with fewer blocks than
+	// requested, which is an error below
+	blocksPerReq := uint64(100)
+	if n := s.config.MaxSendBlocks; n > 0 && n < blocksPerReq {
+		blocksPerReq = n
+	}
+	reqs := make([]Req, (uint64(len(headers))+blocksPerReq-1)/blocksPerReq)
 	for i := range reqs {
 		off := uint64(i) * blocksPerReq
 		numBlocks := min(blocksPerReq, uint64(len(headers[off:])))
